@@ -88,39 +88,46 @@ def run(ctx):
         ds = fx.find(domain="sync", target=reg)
         ctx.ob("U1", AF, "AXIBurst2Beat", f"{reg}:driven", len(ds) >= 2, f"{len(ds)} drivers", 0)
         for a in ds:
-            G = B.guard_formula(a.guards)
+            G = a.eff()
             ok = B.entails(G, H)
             ctx.ob("U1", AF, "AXIBurst2Beat", f"{reg} <= {short(a.v, 30)} only on the beat handshake", ok,
                    "" if ok else f"under {B.show(G)}: a stalled beat is skipped or repeated", a.line)
             if a.v == "0":
                 ok = B.entails(G, B.A("ax_beat.last"))
                 ctx.ob("U1", AF, "AXIBurst2Beat", f"{reg} zeroed only on last", ok, "" if ok else f"under {B.show(G)}", a.line)
+    # the WRAP boundary subtraction is the last statement and overrides both the increment and -- when a WRAP burst that
+    # started on its aligned boundary ends, where offset == beat_wrap and offset - beat_wrap == 0 -- the zeroing.  Every other
+    # override of these registers is reported.
+    W = B.And(H, B.from_expr("(ax_burst.burst == BURST_WRAP) & (BURST_WRAP in capabilities)"), B.A("ax_beat.addr & beat_wrap == beat_wrap"))
     for reg in ("beat_count", "beat_offset"):
         z = [a for a in fx.find(domain="sync", target=reg) if a.v == "0"]
-        ok = len(z) == 1 and B.equivalent(B.guard_formula(z[0].guards), B.And(H, B.A("ax_beat.last")))
+        want = B.And(H, B.A("ax_beat.last"))
+        if reg == "beat_offset":
+            want = B.And(want, B.Not(W))
+        ok = len(z) == 1 and B.equivalent(z[0].eff(), want)
         ctx.ob("U1", AF, "AXIBurst2Beat", f"{reg} returns to 0 with the last beat", ok,
                "" if ok else f"{[(a.v, a.gtext()) for a in z]}: the next burst starts from a stale {reg}")
     inc = [a for a in fx.find(domain="sync", target="beat_count") if a.v == "beat_count + 1"]
-    ok = len(inc) == 1 and B.equivalent(B.guard_formula(inc[0].guards), B.And(H, B.Not(B.A("ax_beat.last"))))
+    ok = len(inc) == 1 and B.equivalent(inc[0].eff(), B.And(H, B.Not(B.A("ax_beat.last"))))
     ctx.ob("U1", AF, "AXIBurst2Beat", "count + 1 on every non-last beat", ok, "" if ok else f"{[a.gtext() for a in inc]}")
     adv = [a for a in fx.find(domain="sync", target="beat_offset") if a.v == "beat_offset + beat_size"]
     wrp = [a for a in fx.find(domain="sync", target="beat_offset") if a.v == "beat_offset - beat_wrap"]
     ok = len(adv) == 1
     if ok:
-        G = B.guard_formula(adv[0].guards)
+        G = adv[0].eff()
         cap = B.from_expr("((ax_burst.burst == BURST_INCR) & (BURST_INCR in capabilities)) | ((ax_burst.burst == BURST_WRAP) & (BURST_WRAP in capabilities))")
-        ok = B.equivalent(G, B.And(H, B.Not(B.A("ax_beat.last")), cap))
+        ok = B.equivalent(G, B.And(H, B.Not(B.A("ax_beat.last")), cap, B.Not(W)))
     ctx.ob("U1", AF, "AXIBurst2Beat", "offset advances only for INCR / WRAP (with capability) on non-last beats", ok,
            "" if ok else f"{[a.gtext() for a in adv]}: FIXED bursts would walk through memory / INCR bursts would not", adv[0].line if adv else 0)
     ok = len(wrp) == 1 and len(adv) == 1
     if ok:
-        G = B.guard_formula(wrp[0].guards)
+        G = wrp[0].eff()
         ok = B.entails(G, B.from_expr("(ax_burst.burst == BURST_WRAP) & (BURST_WRAP in capabilities)")) and \
             B.entails(G, B.A("ax_beat.addr & beat_wrap == beat_wrap")) and fx.assigns.index(wrp[0]) > fx.assigns.index(adv[0])
     ctx.ob("U1", AF, "AXIBurst2Beat", "wrap subtraction for WRAP at the boundary, later than the increment (priority)", ok,
            "" if ok else f"{[(a.gtext()) for a in wrp]} / order", wrp[0].line if wrp else 0)
     br = fx.find(domain="comb", target="ax_burst.ready")
-    ok = len(br) == 1 and br[0].v == "1" and B.equivalent(B.guard_formula(br[0].guards), B.from_expr("ax_beat.ready & ax_beat.last"))
+    ok = len(br) == 1 and br[0].v == "1" and B.equivalent(br[0].eff(), B.from_expr("ax_beat.ready & ax_beat.last"))
     ctx.ob("U1", AF, "AXIBurst2Beat", "burst consumed only at beat ready & last", ok,
            "" if ok else f"{[(a.v, a.gtext()) for a in br]}: the request is dropped before all beats were issued or consumed twice")
     for t, v in (("ax_beat.first", "beat_count == 0"), ("ax_beat.last", "beat_count == ax_burst.len"), ("ax_beat.addr", "ax_burst.addr + beat_offset"),
@@ -194,7 +201,7 @@ def run(ctx):
     for fld in ("resp", "id", "user", "dest"):
         d = [a for a in fx.find() if a.t == f"axi_from.r.{fld}"]
         ok = len(d) == 1 and d[0].domain.startswith("sync") and d[0].v == f"axi_to.r.{fld}" and \
-            B.entails(B.guard_formula(d[0].guards), B.from_expr("axi_to.r.valid & axi_to.r.ready"))
+            B.entails(d[0].eff(), B.from_expr("axi_to.r.valid & axi_to.r.ready"))
         ctx.ob("U3", AF, "AXIDownConverter", f"r.{fld} registered only on an accepted narrow beat", ok,
                "" if ok else f"{[(a.domain, a.v, a.gtext()) for a in d]}: the side-band of a stalled wide word changes to the next beat's",
                d[0].line if d else 0)
